@@ -401,9 +401,16 @@ func (ck *shChecker) checkProps(owner string, md protoreflect.MessageDescriptor,
 		ck.res.Props++
 		// path
 		if len(p.ProtoField) == 0 {
-			if _, ok := p.Schema.(*j5schema.OneofField); !ok {
+			of, ok := p.Schema.(*j5schema.OneofField)
+			if !ok {
 				ck.res.Obs.PathsOK = false
 				ck.add("C18|path|empty", "schema="+shSchemaAtom(p.Schema), "%s.%s: property has no proto field path and is not an exposed oneof", owner, p.JSONName)
+			} else if listKind == "client" && of.Ref != nil {
+				// a pathless oneof in the flattened view says its members live in THIS message: their paths must
+				// resolve here to fields of the matching kind (the declared list is checked where the oneof is declared)
+				if os, ok := of.Ref.To.(*j5schema.OneofSchema); ok {
+					ck.checkProps(owner+"."+p.JSONName, md, os.Properties, "client-oneof-members")
+				}
 			}
 			continue
 		}
